@@ -123,6 +123,8 @@ def crash_cells(kind, ops):
                          bounds=bounds + '; op=%s; index slice [%d,%d]' % (op, lo, hi),
                          samples=[dict(S_CRASH, at=lo + 2)], replay_sweep={'at': SWEEP})
                 )
+            out.append(cell(prefix + 'reach_' + op, 'harness.g_crash', prefix + 'reach_' + op, (120, 300), expect='REFUTED',
+                            thorough_only=thorough_only, bounds=bounds + '; op=%s; twin: some crash index in [1,3] is reached' % op))
             out.append(cell(prefix + 'bound_' + op, 'harness.g_crash', prefix + 'bound_' + op, (300, 900), samples=[S_CRASH],
                             thorough_only=thorough_only,
                             bounds=bounds + '; op=%s; unwinding check: the operation never takes more than 50 steps' % op))
